@@ -170,10 +170,34 @@ def under_assumptions(S, node, extra=()):
             asm = b.AND(asm, S.alg.nb(n2))
     for e in extra:
         asm = b.AND(asm, e)
+    lits = b.necessary_literals(asm)
     r = node
-    for a, pol in b.necessary_literals(asm):
+    for a, pol in lits:
         r = b.restrict(r, a, pol)
-    return r
+    # quantified atoms any_i(phi): simplify phi under the same assumptions; any_i(false) == false
+    memo = {}
+
+    def go(n):
+        if n < 2:
+            return n
+        if n in memo:
+            return memo[n]
+        v, lo, hi = b.nodes[n]
+        atom = b.atoms[v]
+        c = b.var(atom)
+        if atom[0] == "any" and atom[1][0] == "B":
+            inner = atom[1][1]
+            for a2, pol in lits:
+                inner = b.restrict(inner, a2, pol)
+            inner = go(inner)
+            if inner == 0:
+                c = 0
+            elif inner != atom[1][1]:
+                c = b.var(("any", ("B", inner)))
+        res = b.ite(c, go(hi), go(lo))
+        memo[n] = res
+        return res
+    return go(r)
 
 
 def sig_parts(S, sigv):
